@@ -2,7 +2,7 @@
    Statements only; each is closed by [exact] of a lemma proved in Strconv/*Proofs.v. *)
 From Coq Require Import Reals Floats.SpecFloat.
 From Flocq Require Import Core.Core IEEE754.BinarySingleNaN.
-From Verif Require Import Common.Base Strconv.Model Strconv.FModel Strconv.IntProofs Strconv.NumProofs Strconv.DecProofs Strconv.ScanProofs Strconv.FloatProofs Strconv.DecValueProofs Strconv.DecSideProofs Strconv.Legacy.
+From Verif Require Import Common.Base Strconv.Model Strconv.FModel Strconv.IntProofs Strconv.NumProofs Strconv.DecProofs Strconv.ScanProofs Strconv.FloatProofs Strconv.DecValueProofs Strconv.DecSideProofs Strconv.AFProofs Strconv.AFShape Strconv.Legacy.
 Open Scope Z_scope.
 
 (* ParseInt, for EVERY byte string: written as sign ++ digits ++ rest (sign = "", "+" or "-";
@@ -159,15 +159,43 @@ Theorem parse_float_exact_fastpath_partial : forall sg ip fp (dot : bool) tail,
 Proof. exact parse_float_exact_fastpath_proof. Qed.
 Print Assumptions parse_float_exact_fastpath_partial.
 
-(* AppendFloat, PARTIAL: nothing is appended for NaN and the infinities, and a zero is written as "0"
-   after the preserved prefix.  MISSING: well-formedness of the literal, its sign and the parse-back
-   bound for the other finite numbers (tied by the bit-for-bit correspondence of the whole function and
-   searched with big-rational oracles; three defects are listed as findings). *)
-Theorem append_float_shape_partial : forall b spare f prec,
+(* AppendFloat's layout (everything after mant := int64(f)), for EVERY mantissa 1 <= mant < 10^19, every
+   adjusted precision in [-350, 350] (AppendFloat reaches [-331, 348]), either sign, every destination and
+   every content of its spare capacity: the destination is preserved and what is appended is a well-formed
+   literal  -? (digits [. digits] | . digits) [e -? digits]  with '-' exactly for a negative argument.
+   (Lockstep argument: the layout follows digit for digit that of the canonical mantissa 1..10..0 with the same
+   length and trailing zeros, which is computed for all 190 shapes x 701 precisions x 2 signs.) *)
+Theorem append_float_layout : forall b spare neg mant prec, 1 <= mant < 10 ^ 19 -> -350 <= prec <= 350 ->
+  exists out, af_print b spare neg mant prec = Ok (b ++ out) /\ float_literal neg out.
+Proof. exact af_print_shape_proof. Qed.
+Print Assumptions append_float_layout.
+
+(* AppendFloat, PARTIAL: for every float64 (valid_binary; every bit pattern, see [float64_bits_valid]): nothing is
+   appended for NaN and the infinities; for a finite f whose scaled mantissa int64(|f| * 10^prec') fits int64
+   (0 <= af_mant) the destination is preserved and what is appended is "0" when the mantissa is 0 and otherwise a
+   well-formed literal carrying '-' exactly when f < 0.
+   MISSING: (i) that the scaled mantissa fits int64 for every finite f (it does on every case of the bit-for-bit
+   correspondence and of the search); (ii) that the digits are those of f truncated to prec+1 significant digits
+   (parse-back clause): search only, with two listed classes of failing inputs (subnormal f, the three float64
+   around a power of ten). *)
+Theorem append_float_shape_partial : forall b spare f prec, valid_binary 53 1024 f = true ->
+  (f_finite f = false -> append_float b spare f prec = Ok b) /\
+  (f_finite f = true ->
+   let neg := flt f fzero in
+   let g := if neg then fneg f else f in
+   0 <= af_mant g prec ->
+   exists out, append_float b spare f prec = Ok (b ++ out) /\
+               (af_mant g prec = 0 -> out = [48]) /\
+               (0 < af_mant g prec -> float_literal neg out)).
+Proof. exact append_float_shape_proof. Qed.
+Print Assumptions append_float_shape_partial.
+
+(* a zero is written as "0" after the preserved destination *)
+Theorem append_float_zero : forall b spare f prec,
   (f_finite f = false -> append_float b spare f prec = Ok b) /\
   (forall s, f = S754_zero s -> append_float b spare f prec = Ok (b ++ [48])).
 Proof. exact append_float_trivial_proof. Qed.
-Print Assumptions append_float_shape_partial.
+Print Assumptions append_float_zero.
 
 (* ParseNumber is total: for every byte string and every pair of symbols it does not panic, does not
    run out of the model's fuel, and the reported length lies within the input. *)
